@@ -23,7 +23,7 @@ TECHNIQUE = 'static: who-may-touch analysis of World.resources and of looked-up 
 RULE_TEXT = "one obligation per body reaching the resource table, per decision-table row of the fetch functions, per sibling pair, per unsafe item"
 
 
-def run(ctx, report):
+def _run_rules(ctx, report):
     for config in ctx.configs:
         facts = ctx.facts(config)
         report.guard("C08.GATE", W.gate, ctx, report, "C08.GATE", facts, config)
@@ -34,3 +34,10 @@ def run(ctx, report):
         report.guard("C08.RELEASE", R.release, ctx, report, "C08.RELEASE", facts, config)
     P.check(ctx, report, "C08.GATE", ["cell_as_ptr"])
     P.check(ctx, report, "C08.RELEASE", ["forget_guard", "manually_drop_guard", "leak_guard", "launder_guard"])
+
+
+def run(ctx, report):
+    _run_rules(ctx, report)
+    from .. import shared as _S
+    for config in ctx.configs:
+        report.guard("C08.ENCAPSULATED", _S.encapsulated, ctx, report, "C08.ENCAPSULATED", ctx.facts(config), config, "C08")
